@@ -3,8 +3,9 @@
 // the compiler over an explicit table (constexpr) and again at run time from laundered arguments.
 //
 // Tables: every value of the 8-bit types; every pair of 8-bit values for binary functions; the
-// 16-bit types completely (thorough) or on the lattice (quick); the boundary lattice for 32/64
-// bits (0, 1, every single bit b, b-1, b+1, their complements, byte patterns, 2..20).
+// 16-bit types on the lattice (thorough, part 8: completely for the unary <bit> functions); the
+// boundary lattice for 32/64 bits (0..20, every single bit b, b-1, b+1, byte patterns, and the
+// complements of all of them).
 //
 // MC_PART (a translation unit holds at most about six 65536-entry tables: the constant evaluator
 // needs 2-5 KB of compiler memory per entry): 1 <bit> unary and binary + bit_cast; 2 / 3 saturation,
@@ -155,7 +156,7 @@ constexpr auto make_axis()
     } else if constexpr (thorough_tables && sizeof(T) == 4) {
         return make_lattice<T, 2>(); // every second bit position (plus the two highest)
     } else if constexpr (thorough_tables && sizeof(T) == 8) {
-        return make_lattice<T, 3>(); // every third bit position (plus the two highest)
+        return make_lattice<T, 4>(); // every fourth bit position (plus the two highest)
     } else {
         return make_small<T>();
     }
@@ -551,7 +552,10 @@ int main(int argc, char** argv)
         binary_cmp<i16, u64>(r);
     });
 #else
-    m.job("bits-unary-16-complete", {"thorough"}, unary_bits<u16>);
+    m.job("bits-unary-16-complete", {"thorough"}, [](mc::Reporter& r) {
+        run_all<IUnary<u16, g_popcount>, IUnary<u16, g_countl_zero>, IUnary<u16, g_countr_zero>, IUnary<u16, g_countr_one>,
+            IUnary<u16, g_bit_width>, IUnary<u16, g_bit_floor>, IUnary<u16, g_bit_ceil>, IUnary<u16, g_byteswap>, IUnary<i16, g_byteswap>>(r);
+    });
 #endif
     return m.run();
 }
